@@ -58,15 +58,20 @@ def mutate_line(kind, line, req_name):
         return "ZZ,0" if not line.startswith("ZZ") else "YY,0"
     if kind == "garbage":
         return "\x7f??"
+    if kind == "bare":                  # conforming: name only, no payload
+        return req_name
+    if kind == "nocomma":               # conforming: payload follows the name directly
+        return line.replace(",", "", 1)
     raise ValueError(kind)
 
 
 class Line:
-    __slots__ = ("text", "delay", "req", "mutated")
+    __slots__ = ("text", "delay", "req", "mutated", "orig_delay")
 
     def __init__(self, text, delay, req, mutated):
         self.text = text
         self.delay = delay
+        self.orig_delay = delay
         self.req = req
         self.mutated = mutated
 
@@ -90,6 +95,7 @@ class FakePort:
         self.ledger = []                # (producing request, consuming request, text)
         self.faults = []                # labels of every non-default environment answer
         self.flushed = []
+        self.produced = []              # every reply line the board emitted (even if unread)
         self._inbuf = ""
         self.timeout = 1.0
 
@@ -142,7 +148,9 @@ class FakePort:
             if len(self.profile.latency) > 1:
                 delay = self.profile.latency[self._choose(f"q{rid}.l{k}", len(self.profile.latency),
                                                           "latency", self.profile.latency)]
-            self.queue.append(Line(text, delay, rid, mutated))
+            line = Line(text, delay, rid, mutated)
+            self.queue.append(line)
+            self.produced.append(line)
 
     def readline(self):
         if self.closed:
